@@ -280,6 +280,8 @@ pub open spec fn recv_ok_post(c0: StunClient, c1: StunClient, raw: Seq<u8>, m: S
          || e == StunClientEvent::TransactionFailed((m.sid(), StunTransactionError::ProtectionViolated))
          || e == StunClientEvent::TransactionFailed((m.sid(), StunTransactionError::DoNotRetry)))
     &&& (c0.mechanism is None ==> e == StunClientEvent::StunMessageReceived(m))
+    // an indication is delivered as such or refused: it never yields a verdict about a request
+    &&& (m.sclass() is Indication ==> e == StunClientEvent::StunMessageReceived(m))
     // C10: with fingerprints in use nothing is delivered or completed unless the FINGERPRINT is present and right
     &&& (c0.use_fingerprint ==> fp_verdict(raw, m) == Some(true))
     &&& (if m.sclass() is Indication {
@@ -988,6 +990,92 @@ pub proof fn lemma_wf_initial(c: StunClient)
 {
     assert forall|x: TimeoutItem| #[trigger] c.timeouts.ms().count(x) > 0 implies false by {
         if c.timeouts.ms().count(x) > 0 { assert(c.timeouts.ms().len() > 0); }
+    }
+}
+
+// ---------------------------------------------------------------- C05 over whole call histories: a lemma over the per-call contracts
+// which request an event reports a final outcome for (a delivered indication is not the outcome of a request)
+pub open spec fn final_of(e: StunClientEvent) -> Option<TransactionId> {
+    match e {
+        StunClientEvent::StunMessageReceived(m) => if m.sclass() is Indication { None } else { Some(m.sid()) },
+        StunClientEvent::TransactionFailed(f) => Some(f.0),
+        StunClientEvent::Retry(id) => Some(id),
+        _ => None,
+    }
+}
+// what one API call may do to the set of outstanding requests and which final outcomes it may report
+pub open spec fn step_sound(t0: Set<TransactionId>, t1: Set<TransactionId>, evs: Seq<StunClientEvent>, new_id: Option<TransactionId>) -> bool {
+    // the table only grows by the request sent in this call
+    &&& (forall|id: TransactionId| t1.contains(id) ==> t0.contains(id) || new_id == Some(id))
+    // a final outcome is reported only for a request outstanding before the call, which is gone after it
+    &&& (forall|k: int| 0 <= k < evs.len() && final_of(#[trigger] evs[k]) is Some ==>
+            t0.contains(final_of(evs[k])->Some_0) && !t1.contains(final_of(evs[k])->Some_0))
+    // and at most once within the call
+    &&& (forall|j: int, k: int| 0 <= j < k < evs.len() && final_of(evs[j]) is Some ==> final_of(evs[j]) != final_of(evs[k]))
+}
+// on_buffer_recv returning Ok is such a step (contract recv_ok_post)
+pub proof fn lemma_step_recv(c0: StunClient, c1: StunClient, raw: Seq<u8>, m: StunMessage, now: Instant)
+    requires recv_ok_post(c0, c1, raw, m, now),
+    ensures step_sound(c0.transactions@.dom(), c1.transactions@.dom(), c1.transaction_events.events@, None),
+{
+}
+// on_timeout is such a step (contract tmo_batch_ok)
+pub proof fn lemma_step_timeout(c0: StunClient, c1: StunClient, ids: Seq<TransactionId>, now: int)
+    requires tmo_batch_ok(c0, c1, c1.transaction_events.events@, ids, now), c1.transactions@.dom().subset_of(c0.transactions@.dom()),
+    ensures step_sound(c0.transactions@.dom(), c1.transactions@.dom(), c1.transaction_events.events@, None),
+{
+    let ev = c1.transaction_events.events@;
+    assert forall|k: int| 0 <= k < ev.len() && final_of(#[trigger] ev[k]) is Some implies
+        c0.transactions@.dom().contains(final_of(ev[k])->Some_0) && !c1.transactions@.dom().contains(final_of(ev[k])->Some_0) by {
+        if k < ids.len() { assert(tmo_event_ok(c0, c1.transactions@, ids[k], ev[k], now)); }
+    }
+    assert forall|j: int, k: int| 0 <= j < k < ev.len() && final_of(ev[j]) is Some implies final_of(ev[j]) != final_of(ev[k]) by {
+        if k < ids.len() {
+            assert(tmo_event_ok(c0, c1.transactions@, ids[j], ev[j], now));
+            assert(tmo_event_ok(c0, c1.transactions@, ids[k], ev[k], now));
+            assert(ids[j] != ids[k]);
+        }
+    }
+}
+// C05: along any history of calls in which request ids are not reused, every request gets at most one final outcome
+// props: C05
+pub proof fn theorem_c05_history(doms: Seq<Set<TransactionId>>, evs: Seq<Seq<StunClientEvent>>, news: Seq<Option<TransactionId>>,
+    i: int, k: int, j: int, l: int)
+    requires
+        doms.len() == evs.len() + 1, news.len() == evs.len(),
+        forall|s: int| 0 <= s < evs.len() ==> step_sound(#[trigger] doms[s], doms[s + 1], evs[s], news[s]),
+        // a fresh id was never outstanding before (random 96-bit ids: the assumption recorded at send_request)
+        forall|s: int, r: int| 0 <= r <= s < evs.len() && (#[trigger] news[s]) is Some ==> !(#[trigger] doms[r]).contains(news[s]->Some_0),
+        0 <= i <= j < evs.len(), 0 <= k < evs[i].len(), 0 <= l < evs[j].len(),
+        final_of(evs[i][k]) is Some, final_of(evs[i][k]) == final_of(evs[j][l]),
+    ensures i == j && k == l,
+{
+    let id = final_of(evs[i][k])->Some_0;
+    assert(step_sound(doms[i], doms[i + 1], evs[i], news[i]));
+    if i < j {
+        // gone after call i, and it can only come back as a fresh id, which it is not (it was outstanding at call i)
+        lemma_stays_out(doms, evs, news, id, i, j);
+        assert(step_sound(doms[j], doms[j + 1], evs[j], news[j]));
+    } else if k != l {
+        if k < l { assert(final_of(evs[i][k]) != final_of(evs[i][l])); } else { assert(final_of(evs[i][l]) != final_of(evs[i][k])); }
+    }
+}
+proof fn lemma_stays_out(doms: Seq<Set<TransactionId>>, evs: Seq<Seq<StunClientEvent>>, news: Seq<Option<TransactionId>>, id: TransactionId, i: int, m: int)
+    requires
+        doms.len() == evs.len() + 1, news.len() == evs.len(),
+        forall|s: int| 0 <= s < evs.len() ==> step_sound(#[trigger] doms[s], doms[s + 1], evs[s], news[s]),
+        forall|s: int, r: int| 0 <= r <= s < evs.len() && (#[trigger] news[s]) is Some ==> !(#[trigger] doms[r]).contains(news[s]->Some_0),
+        0 <= i < m <= evs.len(), doms[i].contains(id), !doms[i + 1].contains(id),
+    ensures !doms[m].contains(id),
+    decreases m - i,
+{
+    if m > i + 1 {
+        lemma_stays_out(doms, evs, news, id, i, m - 1);
+        assert(step_sound(doms[m - 1], doms[m], evs[m - 1], news[m - 1]));
+        if doms[m].contains(id) {
+            assert(news[m - 1] == Some(id));
+            assert(!doms[i].contains(news[m - 1]->Some_0));
+        }
     }
 }
 proof fn vx_sentinel() ensures false {}
